@@ -7,7 +7,7 @@ import itertools
 import json
 import os
 
-from .. import clih, common, routing
+from .. import clih, common, pairwise, routing
 
 PROP = "C11"
 MOD = "vf.checks.c11"
@@ -56,7 +56,10 @@ def scenarios(tier):
         for layout in ("single", "paired"):
             for final in (None, "untrimmed_output"):
                 pe.append(dict(keys=["m", "max_n"], final=final, ts=True, tl=False, alt=None, layout=layout, pf=None, sides="both", side=side))
-    return S + pe
+    # every pair of entries of the option universe of vf.pairwise (parameter plumbing between unrelated options)
+    pw = [dict(pw=k, label=pairwise.get(k)["label"], layout=pairwise.get(k)["layout"], keys=[], final=None, ts=False, tl=False, alt=None,
+               pf=None, sides="both") for k in range(pairwise.count())]
+    return S + pe + pw
 
 
 def shards(tier):
@@ -66,6 +69,9 @@ def shards(tier):
 
 
 def opts_of(sc):
+    if "pw" in sc:
+        p = pairwise.get(sc["pw"])
+        return dict(p["opts"]), dict(p["outs"])
     o = dict(e=0.1, O=5)
     thr = dict(BASE_THR)
     if sc["alt"]:
@@ -97,8 +103,11 @@ def run_shard(d):
     r1, r2 = _C["c"]
     wd = clih.fresh_dir("c11")
     res = dict(evals=0, runs=0, nontrivial=0, disagreeing=0, viol=common.Viols(cap=3), samples=[], cats=set())
+    fwd = (r1, r2)
     for i in d["idx"]:
-        sc = S[i]
+        sc = dict(S[i], reversed_corpus=(i % 2 == 1))
+        # every other scenario reads the corpus back to front (the reference judges each read on its own)
+        r1, r2 = (fwd[0][::-1], fwd[1][::-1]) if sc["reversed_corpus"] else fwd
         o, outs = opts_of(sc)
         out = routing.run_scenario(o, outs, sc["layout"], r1, r2 if sc["layout"] != "single" else None, wd, want_json=False)
         res["runs"] += 1
@@ -107,6 +116,8 @@ def run_shard(d):
         res["disagreeing"] += out["stats"]["disagreeing_pairs"]
         res["cats"] |= set(out["stats"]["categories"])
         for kind, what, detail in out["violations"]:
+            if kind in ("content", "unit"):
+                continue  # what the read looks like is judged by C03/C09/C10; here: which destination it reaches
             res["viol"].append((f"{'pe' if sc['layout'] != 'single' else 'se'}:{kind}", what,
                                 dict(scenario={k: v for k, v in sc.items()}, argv=[a for a in out["stats"]["argv"] if not a.startswith("/")], **detail)))
         if not res["samples"] and len(sc["keys"]) >= 3:
@@ -137,7 +148,8 @@ def run(tier):
     R.assumptions = ["read modifications themselves are judged by C10/C13/C14; adapters by C01/C02", "thresholds chosen away from "
                      "floating-point ties except the exact single-value boundaries"]
     return R.finish(tot.get("evals", 0), tot.get("nontrivial", 0),
-                    "scenarios = every subset of {-m,-M,--max-n,--max-ee,--max-aer,--discard-casava} x {none, --discard-trimmed, "
+                    "scenarios = every PAIR of entries of a universe of 53 option settings (vf/pairwise.py) on top of one adapter per read; "
+                    "every subset of {-m,-M,--max-n,--max-ee,--max-aer,--discard-casava} x {none, --discard-trimmed, "
                     "--discard-untrimmed, --untrimmed-output} x redirect files x 13 boundary thresholds (single-end); paired-end: x "
                     "--pair-filter {unset,any,both,first} x adapters on {both, R1, R2} x length specs L1:L2, L1:, :L2; corpus of 576 reads "
                     "realising every combination of (trimmed length class, N count, expected-error class, CASAVA flag, adapter present); "
@@ -154,6 +166,8 @@ def replay(path):
     o, outs = opts_of(sc)
     r1 = routing.corpus()
     r2 = routing.mate_corpus(r1)
+    if sc.get("reversed_corpus"):
+        r1, r2 = r1[::-1], r2[::-1]
     wd = clih.fresh_dir("c11r")
     out = routing.run_scenario(o, outs, sc["layout"], r1, r2 if sc["layout"] != "single" else None, wd, want_json=False)
     print("violations on replay:", out["violations"][:3])
